@@ -36,7 +36,7 @@ PROPS_EQ = {
     },
     'C04': {
         'engine': 'eqsim',
-        'quick': {'runs': 1000, 'steps': (15, 40), 'deadline_s': 120, 'chunk': 8, 'seed': 4},
+        'quick': {'runs': 1500, 'steps': (15, 40), 'deadline_s': 150, 'chunk': 8, 'seed': 4},
         'thorough': {'runs': 40000, 'steps': (15, 60), 'deadline_s': 900, 'chunk': 20, 'seed': 1004},
         'rule': _RULE + ('; C04 additionally replays every history on a twin universe with all flows x k in half '
                          'of the runs (scaling clause)'),
